@@ -16,6 +16,7 @@
 #include <atomic>
 #include <omp.h>
 #include <thread>
+#include <sys/wait.h>
 #include <unordered_map>
 
 using namespace verif;
@@ -181,12 +182,14 @@ static const ACfg *find_cfg(const std::vector< ACfg > &v, const std::string &n) 
 static std::string cfg_json(const ACfg &c) { return "\"cfg\": \"" + c.name + "\""; }
 
 struct Stats : public RayStats {
-  uint64_t positions = 0, cells = 0, evals = 0, near_face = 0;
+  uint64_t positions = 0, cells = 0, evals = 0, near_face = 0, skipped_hang = 0, skipped_inface = 0;
   void merge(const Stats &o) {
     positions += o.positions;
     cells += o.cells;
     evals += o.evals;
     near_face += o.near_face;
+    skipped_hang += o.skipped_hang;
+    skipped_inface += o.skipped_inface;
     merge_rays(o);
   }
 };
@@ -385,7 +388,7 @@ static double opacity(const ACfg &cfg, const Leaf &l, int field, double base) {
 static std::atomic< uint64_t > g_beat[256];
 static char g_current[256][1024];
 
-static void rays_for(const ACfg &cfg, int per, int field, bool thorough, long seed, Result &R, Stats &st, const RayCase *only, bool verbose) {
+static void rays_for(const ACfg &cfg, int per, int field, bool thorough, long seed, Result &R, Stats &st, const RayCase *only, bool verbose, int hangmask = 0) {
   const bool P[3] = {(per & 1) != 0, (per & 2) != 0, (per & 4) != 0};
   Built B;
   build(cfg, per, B, R, st, false);
@@ -465,10 +468,11 @@ static void rays_for(const ACfg &cfg, int per, int field, bool thorough, long se
   std::rotate(dirs.begin(), dirs.begin() + (seed % dirs.size()), dirs.end());
   auto kfun = [&](long id) -> Q { return kap[id]; };
   int failures = 0;
+  (void)failures;
   for (double x : L[0])
     for (double y : L[1])
       for (double z : L[2]) {
-        if (R.out_of_time() || failures > 20) {
+        if (R.out_of_time()) {
           delete B.grid;
           return;
         }
@@ -478,9 +482,32 @@ static void rays_for(const ACfg &cfg, int per, int field, bool thorough, long se
           for (int d = 0; d < 3; ++d)
             rc.dir[d] = dv[d];
           rc.iod = false;
-          bool leaves = false;
-          for (int d = 0; d < 3; ++d)
+          bool leaves = false, hangs = false;
+          for (int d = 0; d < 3; ++d) {
             leaves |= (!P[d] && dv[d] != 0.);
+            hangs |= ((hangmask >> d) & 1) && dv[d] != 0.;
+          }
+          // a ray that lies in the plane of a cell face (start on a face of
+          // the finest lattice, no component along that axis) belongs to either
+          // adjacent cell: get_cell_index puts it in the upper cell, the descent
+          // AMRGridCell::get_child(position) in the lower one; both are
+          // accepted, so such rays are not compared
+          bool inface = false;
+          for (int d = 0; d < 3; ++d)
+            if (dv[d] == 0.) {
+              const Q u = ((Q)rc.p[d] - cfg.A[d]) / B.M.side(d, B.M.Lf);
+              inface |= fabsl(u - roundl(u)) < 1e-9L;
+            }
+          if (inface) {
+            ++st.skipped_inface;
+            continue;
+          }
+          if (hangs) {
+            // interact() was shown not to return for this class (reported by
+            // the probe in main); the rays are counted, not traced
+            ++st.skipped_hang;
+            continue;
+          }
           std::vector< double > targets = {0.25, 1.0, 3.7, 20.3};
           if (leaves) {
             const double inf = 1e300;
@@ -548,16 +575,71 @@ int main(int argc, char **argv) {
     raycfg = {"2x2x2-uniform", "2x2x2-lowx", "4x4x4-lowx", "4x4x4-highx", "4x4x4-corner", "4x4x4-centre", "6x4x2-lowzhighy", "3x1x1-lowx", "2x2x4-zy", "4x4x4-lowx-generic"};
   struct Task {
     const ACfg *c;
-    int per, field;
+    int per, field, hangmask;
   };
   std::vector< Task > tasks;
-  for (auto &n : raycfg)
-    for (int per = 0; per < 8; ++per)
+  uint64_t probes = 0;
+  for (auto &n : raycfg) {
+    const ACfg *c = find_cfg(cfgs, n);
+    AModel PM;
+    PM.build(*c);
+    for (int per = 0; per < 8; ++per) {
+      // probe (child process, 3 s alarm): a ray crossing a periodic face of a
+      // leaf that spans the whole box along that axis
+      int hangmask = 0;
+      for (int d = 0; d < 3; ++d) {
+        if (!((per >> d) & 1) || c->n[d] != 1)
+          continue;
+        long span = -1;
+        for (size_t id = 0; id < PM.leaves.size(); ++id)
+          if (PM.leaves[id].L == 0)
+            span = (long)id;
+        if (span < 0)
+          continue;
+        Q lo[3], hi[3];
+        PM.box(span, lo, hi);
+        RayCase rc;
+        for (int a = 0; a < 3; ++a) {
+          rc.p[a] = (double)(0.5L * (lo[a] + hi[a]));
+          rc.dir[a] = a == d ? 1. : 0.;
+        }
+        double minside = DBL_MAX;
+        for (int a = 0; a < 3; ++a)
+          minside = std::min(minside, c->S[a] / c->n[a]);
+        rc.target = 2.5 * c->S[d] / minside; // two and a half box lengths at opacity `base`
+        rc.iod = false;
+        ++probes;
+        fflush(nullptr);
+        const pid_t pid = fork();
+        if (pid == 0) {
+          alarm(3);
+          Result R2(A);
+          Stats s2;
+          rays_for(*c, per, 0, th, 0, R2, s2, &rc, false);
+          _exit(R2.violation_count ? 1 : 0);
+        }
+        int stt = 0;
+        waitpid(pid, &stt, 0);
+        if (WIFSIGNALED(stt) && WTERMSIG(stt) == SIGALRM) {
+          hangmask |= 1 << d;
+          const std::string rep = fmt("{%s, \"what\": \"ray\", \"periodic\": %d, \"field\": 0, \"start\": \"%a %a %a\", \"dir\": \"%a %a %a\", \"target\": \"%a\", \"iod\": 0}",
+                                      cfg_json(*c).c_str(), per, rc.p[0], rc.p[1], rc.p[2], rc.dir[0], rc.dir[1], rc.dir[2], rc.target);
+          R.violation("C16:amrdensity:interact-does-not-return:periodic-axis-spanned-by-one-cell",
+                      fmt("cfg %s periodic %d: interact() does not return (3 s) for a ray along axis %d, which is periodic and spanned by a single "
+                          "cell; the cell is its own neighbour and the wrap-around is never applied: ",
+                          c->name.c_str(), per, d) + rep,
+                      rep);
+        } else if (!WIFEXITED(stt)) {
+          R.violation("C16:amrdensity:probe-crashed", fmt("cfg %s periodic %d axis %d: probe child ended with status %d", c->name.c_str(), per, d, stt), "null");
+        }
+      }
       for (int field = 0; field < 3; ++field) {
         if (!th && field == 0)
           continue;
-        tasks.push_back({find_cfg(cfgs, n), per, field});
+        tasks.push_back({c, per, field, hangmask});
       }
+    }
+  }
   // watchdog: a ray that does not come back within 30 s is reported as a hang
   std::atomic< bool > finished(false);
   std::thread watchdog([&]() {
@@ -593,7 +675,7 @@ int main(int argc, char **argv) {
         cut = true;
         continue;
       }
-      rays_for(*tasks[i].c, tasks[i].per, tasks[i].field, th, A.seed, R, st, nullptr, false);
+      rays_for(*tasks[i].c, tasks[i].per, tasks[i].field, th, A.seed, R, st, nullptr, false, tasks[i].hangmask);
     }
 #pragma omp critical
     ST.merge(st);
@@ -617,6 +699,9 @@ int main(int argc, char **argv) {
   R.set("rays_absorbed", (double)ST.rays_abs);
   R.set("rays_escaped", (double)ST.rays_esc);
   R.set("rays_with_target_depth_on_a_wall_(either_outcome_accepted)", (double)ST.ties);
+  R.set("rays_not_traced_because_interact_does_not_return_for_their_class", (double)ST.skipped_hang);
+  R.set("hang_probes_in_child_processes", (double)probes);
+  R.set("rays_lying_in_a_cell_face_plane_not_compared", (double)ST.skipped_inface);
   R.set("tolerance_k", 2.);
   R.set("deposit_within_10x_of_tolerance", (double)ST.t_path.near);
   R.set("deposit_worst_error_over_tolerance", ST.t_path.worst);
@@ -626,6 +711,7 @@ int main(int argc, char **argv) {
   R.set("optical_depth_worst_error_over_tolerance", ST.t_tau.worst);
   R.set("path_sum_within_10x_of_tolerance", (double)ST.t_sum.near);
   R.set("path_sum_worst_error_over_tolerance", ST.t_sum.worst);
+  R.assumptions.push_back("rays lying exactly in the plane of a cell face (tie between the two adjacent cells) are not compared for the AMR grid");
   R.assumptions.push_back("AMRDensityGrid::get_neighbours and ::integrate_optical_depth are unimplemented in the code base (cmac_error) and not checked");
   R.assumptions.push_back("refinement comes from AMRDensityGrid::initialize with a geometric AMRRefinementScheme; reset_grid-time refinement is not exercised");
   return R.finish(A);
